@@ -72,7 +72,7 @@ func TestCandLoopForwardScaling(t *testing.T) {
 
 // forward half only: the prefix is one byte, the suffix scan runs to the end of the haystack for every candidate
 func TestCandLoopForwardOnly(t *testing.T) {
-	for _, pat := range []string{`[A-Z]error[A-Za-z ]*[0-9]`, `[A-Z]+error[A-Za-z ]*[0-9]`} {
+	for _, pat := range []string{`[A-Z]error[A-Za-z ]*[0-9]`, `[A-Z]+error[A-Za-z ]*[0-9]`, `[A-Z]{1,3}error[A-Za-z ]*[0-9]`, `(?:[A-Z]|[0-9])error[A-Za-z ]*[0-9]`} {
 		re := coregex.MustCompile(pat)
 		std := regexp.MustCompile(pat)
 		e, _ := meta.Compile(pat)
@@ -86,6 +86,76 @@ func TestCandLoopForwardOnly(t *testing.T) {
 				timeIt(func() { std.FindIndex(b) }),
 			}
 			t.Logf("%-32s %-18v n=%6d Find=%-12v Match=%-12v FindAll=%-12v std=%-12v ratios %.1f %.1f %.1f", pat, e.Strategy(), len(b), d[0], d[1], d[2], d[3], float64(d[0])/float64(prev[0]+1), float64(d[1])/float64(prev[1]+1), float64(d[2])/float64(prev[2]+1))
+			prev = d
+		}
+	}
+}
+
+// digit-prefilter candidate loops: an anchored forward scan per digit, nothing bounds the total
+func TestDigitCandidateScaling(t *testing.T) {
+	for _, pat := range []string{`\d\d*-x`, `(?:\d+-|\d+:)x`, `[0-9][0-9a]*-x`, `\d+-x`} {
+		re := coregex.MustCompile(pat)
+		std := regexp.MustCompile(pat)
+		e, _ := meta.Compile(pat)
+		var prev [3]time.Duration
+		for _, n := range []int{4000, 8000, 16000, 32000} {
+			b := []byte(strings.Repeat("1", n))
+			d := [3]time.Duration{
+				timeIt(func() { re.FindIndex(b) }),
+				timeIt(func() { re.Match(b) }),
+				timeIt(func() { std.FindIndex(b) }),
+			}
+			t.Logf("%-20s %-18v n=%6d Find=%-12v Match=%-12v std=%-12v ratios %.1f %.1f", pat, e.Strategy(), len(b), d[0], d[1], d[2], float64(d[0])/float64(prev[0]+1), float64(d[1])/float64(prev[1]+1))
+			prev = d
+		}
+	}
+}
+
+// UseNFA with a prefix prefilter: every candidate starts an UNANCHORED search over the rest of the haystack
+func TestNFACandidateScaling(t *testing.T) {
+	for _, pat := range []string{`foo\w*?bar\b`, `\bfoo[a-z ]*z\b`, `(foo|fob)\w*?y\b`} {
+		re := coregex.MustCompile(pat)
+		std := regexp.MustCompile(pat)
+		e, _ := meta.Compile(pat)
+		var prev [4]time.Duration
+		for _, n := range []int{1000, 2000, 4000, 8000} {
+			b := []byte(strings.Repeat("foo ", n))
+			d := [4]time.Duration{
+				timeIt(func() { re.FindIndex(b) }),
+				timeIt(func() { re.Match(b) }),
+				timeIt(func() { re.FindAllIndex(b, -1) }),
+				timeIt(func() { std.FindIndex(b) }),
+			}
+			t.Logf("%-20s %-8v n=%6d Find=%-12v Match=%-12v FindAll=%-12v std=%-12v ratios %.1f %.1f %.1f", pat, e.Strategy(), len(b), d[0], d[1], d[2], d[3], float64(d[0])/float64(prev[0]+1), float64(d[1])/float64(prev[1]+1), float64(d[2])/float64(prev[2]+1))
+			prev = d
+		}
+	}
+}
+
+// remaining forward-scan-per-candidate loops flagged by R-CANDLOOP (4)
+func TestForwardScanCandidates(t *testing.T) {
+	cases := []struct{ pat, unit string }{
+		{`\d+error[a-z0-9 ]*[!?]`, "1error "},
+		{`[A-Z]\d*error[a-z0-9A-Z ]*[!?]`, "A1error "},
+		{`foo[\pL ]*[!?]`, "foo "},
+		{`(?m)^/[a-z/.]*\.php[a-z/.]*!`, "/a.php"},
+		{`(?m)^/.*\.php[a-z/. ]*!`, "/a.php "},
+		{`\d+\.\d+\.35[0-9. ]*x`, "1.2.35 "},
+	}
+	for _, c := range cases {
+		re := coregex.MustCompile(c.pat)
+		std := regexp.MustCompile(c.pat)
+		e, _ := meta.Compile(c.pat)
+		var prev [4]time.Duration
+		for _, n := range []int{1000, 2000, 4000, 8000} {
+			b := []byte(strings.Repeat(c.unit, n))
+			d := [4]time.Duration{
+				timeIt(func() { re.FindIndex(b) }),
+				timeIt(func() { re.Match(b) }),
+				timeIt(func() { re.FindAllIndex(b, -1) }),
+				timeIt(func() { std.FindIndex(b) }),
+			}
+			t.Logf("%-34s %-26v n=%6d Find=%-12v Match=%-12v FindAll=%-12v std=%-12v ratios %.1f %.1f %.1f", c.pat, e.Strategy(), len(b), d[0], d[1], d[2], d[3], float64(d[0])/float64(prev[0]+1), float64(d[1])/float64(prev[1]+1), float64(d[2])/float64(prev[2]+1))
 			prev = d
 		}
 	}
